@@ -861,6 +861,210 @@ def stage_needy_elements(ctx: Ctx):
                                           {**desc, 'result_src': m.src, 'live_equals_expected': got_live == want, 'reparsed_equals_expected': got_src == want})
 
 
+def stage_clause_removal(ctx: Ctx):
+    """deterministic: removing ALL statements of a clause that the statement can do without (the else of if / for / while / try, the finally of a try with handlers, the handlers
+    of a try with a finally and no else), for every combination of the other clauses being there or not, under norm_self / norm False (default) and True, through every
+    equivalent entry point: the clause is gone, the rest is unchanged; never refused"""
+    import fst
+    import itertools
+    progs = []
+    for has_h, has_e, has_f in itertools.product((False, True), repeat=3):
+        if not (has_h or has_f) or (has_e and not has_h):
+            continue
+        src = 'pre\ntry:\n    a\n' + ('except E:\n    b\nexcept F as g:\n    c\n' if has_h else '') + ('else:\n    d\n    dd\n' if has_e else '') + ('finally:\n    e\n    ee\n' if has_f else '') + 'post\n'
+        for star in (False, True):
+            s_ = src.replace('except ', 'except* ') if star else src
+            if star and not has_h:
+                continue
+            if has_e:
+                progs.append((s_, 'orelse'))
+            if has_f and has_h:
+                progs.append((s_, 'finalbody'))
+            if has_h and has_f and not has_e:
+                progs.append((s_, 'handlers'))
+    for head in ('if a:\n    b\n', 'while a:\n    b\n', 'for i in a:\n    b\n', 'async for i in a:\n    b\n'):
+        src = 'pre\n' + head + 'else:\n    c\n    cc\n' + 'post\n'
+        progs.append((src if not head.startswith('async') else None, 'orelse'))
+    progs.append(('pre\nif a:\n    b\nelif c:\n    d\npost\n', 'orelse'))
+    progs.append(('pre\nif a:\n    b\nelif c:\n    d\nelse:\n    e\npost\n', 'orelse'))
+    for src, field in progs:
+        if src is None:
+            continue
+        for nested in (False, True):
+            s_ = src if not nested else 'def fn():\n' + ''.join('    ' + l + '\n' for l in src.split('\n')[:-1])
+            path = 'body[1]' if not nested else 'body[0].body[1]'
+            want = ast.parse(s_)
+            wn = eval('want.' + path)
+            setattr(wn, field, [])
+            want_c = canon(ast.parse(ast.unparse(want)))
+            for opts in ({}, {'norm_self': True}, {'norm': True}, {'norm_self': False}):
+                for ep in ('put_slice', 'delattr', 'setattr_none', 'view_del', 'view_remove', 'view_cut', 'get_slice_cut', 'put_none'):
+                    m = fst.FST(s_, 'exec')
+                    node = eval('m.' + path)
+                    desc = {'src': s_, 'field': field, 'options': opts, 'entry': ep}
+                    try:
+                        with fst.FST.options(**opts):
+                            if ep == 'put_slice':
+                                node.put_slice(None, 0, 'end', field)
+                            elif ep == 'put_none':
+                                node.put(None, 0, 'end', field)
+                            elif ep == 'delattr':
+                                delattr(node, field)
+                            elif ep == 'setattr_none':
+                                setattr(node, field, None)
+                            elif ep == 'view_del':
+                                del getattr(node, field)[:]
+                            elif ep == 'view_remove':
+                                getattr(node, field)[:].remove()
+                            elif ep == 'view_cut':
+                                getattr(node, field)[:].cut()
+                            else:
+                                node.get_slice(0, 'end', field, cut=True)
+                    except Exception as ex:
+                        ctx.tick(None, 'clause-removal:refused')
+                        ctx.violation(f'clause-removal-refused|{type(node.a).__name__}.{field}|{type(ex).__name__}', 'removing a clause the statement can do without was refused',
+                                      {**desc, 'error': repr(ex)[:300], 'expected_src': ast.unparse(want)})
+                        continue
+                    ctx.tick((s_, field, tuple(opts.items()), ep), 'clause-removal:' + ep)
+                    try:
+                        got_src = canon(ast.parse(m.src))
+                    except SyntaxError as ex:
+                        got_src = ('SyntaxError', str(ex))
+                    if canon(m.a) != want_c or got_src != want_c:
+                        ctx.violation(f'clause-removal|structure|{type(node.a).__name__}.{field}', 'after removing the clause the tree is not the statement without it (rest unchanged)',
+                                      {**desc, 'result_src': m.src, 'expected_src': ast.unparse(want), 'live_equals_expected': canon(m.a) == want_c})
+
+
+ARGS_OLDS = ['a, *, c', 'a, b, *, c', 'a, /, b', 'a, /, b, *, c', 'a, b=1, *v, c, d=2, **k', 'a, /, b, *v, c', '*, c', 'a, /', '*v', '**k', 'a', 'a, /, *, c', 'a=1, /, b=2, *, c=3, **k', 'a, *, c, d',
+             'a, *v', 'a, *, c=1, **k', 'a, b, /', 'a, /, b=1, *, c', '\ufb01, /, \ufb02=1, *, \ufb03, \ufb00=2', '*, \ufb01, b', '*\ufb01, \ufb02, **\ufb03']
+ARGS_NEWS = [None, 'x', '*x', 'y, *x', 'x, /', '*, x', 'x, /, y', '**kk', 'x=1', '*x: int', 'x, *, y', 'x, /, *, y', 'x, /, y, *z, w, **kk', 'x: int = 1', '*x, y', '*, x=1', 'x, y', 'x=1, /', '*x, **kk']
+
+
+def _arg_elems(src, lam):
+    """elements of an arguments text in source order: (category, name, annotation source, default source)"""
+    a = (ast.parse(f'lambda {src}: 0', mode='eval').body if lam else ast.parse(f'def f({src}): pass').body[0]).args
+    pos = a.posonlyargs + a.args
+    defs = [None] * (len(pos) - len(a.defaults)) + list(a.defaults)
+    u = lambda n: None if n is None else ast.unparse(n)
+    out = [(0 if i < len(a.posonlyargs) else 1, p.arg, u(p.annotation), u(d)) for i, (p, d) in enumerate(zip(pos, defs))]
+    if a.vararg:
+        out.append((2, a.vararg.arg, u(a.vararg.annotation), None))
+    out += [(3, p.arg, u(p.annotation), u(d)) for p, d in zip(a.kwonlyargs, a.kw_defaults)]
+    if a.kwarg:
+        out.append((4, a.kwarg.arg, u(a.kwarg.annotation), None))
+    return out
+
+
+def _args_render(elems):
+    """the arguments text of a list of elements, None if no valid arguments has them in this order with these categories"""
+    cats = [e[0] for e in elems]
+    if cats != sorted(cats) or cats.count(2) > 1 or cats.count(4) > 1:
+        return None
+    seen_def = False
+    for c, _, _, d in elems:
+        if c < 2:
+            if d is not None:
+                seen_def = True
+            elif seen_def:
+                return None
+    parts = []
+    one = lambda e, pre='': pre + e[1] + (': ' + e[2] if e[2] else '') + ('=' + e[3] if e[3] else '')
+    for i, e in enumerate(elems):
+        c = e[0]
+        if c == 3 and (i == 0 or elems[i - 1][0] < 2):
+            parts.append('*')
+        parts.append(one(e, {2: '*', 4: '**'}.get(c, '')))
+        if c == 0 and (i + 1 == len(elems) or elems[i + 1][0] != 0):
+            parts.append('/')
+    return ', '.join(parts)
+
+
+def stage_arguments_sweep(ctx: Ctx):
+    """deterministic: arguments._all as a Python list over arguments with the `/` and `*` markers in every place: every (start, stop) x new arguments of every category (each element
+    keeps the category it has where it comes from): when those elements in that order form valid arguments the put is carried out and gives exactly them (markers re-derived),
+    otherwise it is refused without a trace; def and lambda; put_slice / view slice assignment"""
+    import fst
+    for lam in (False, True):
+        for old in ARGS_OLDS:
+            olds = _arg_elems(old, lam)
+            n = len(olds)
+            src = f'v = lambda {old}: 0\n' if lam else f'def fn({old}): pass\n'
+            # the default of one keyword-only argument: put and delete (an optional position of a list)
+            for i, el in enumerate(olds):
+                if el[0] != 3:
+                    continue
+                ki = sum(1 for e_ in olds[:i] if e_[0] == 3)
+                for val in ('qq', None, '(q,\n r)'):
+                    if val is None and el[3] is None:
+                        continue
+                    m = fst.FST(src, 'exec')
+                    node = m.body[0].value.args if lam else m.body[0].args
+                    desc = {'src': src, 'field': 'kw_defaults', 'index': ki, 'value': val}
+                    try:
+                        node.put(val, ki, 'kw_defaults')
+                    except Exception as ex:
+                        ctx.violation(f'arguments-sweep|kw_defaults-refused|{type(ex).__name__}', 'putting / deleting the default of a keyword-only argument was refused', {**desc, 'error': repr(ex)[:300]})
+                        continue
+                    ctx.tick((src, 'kw_defaults', ki, val), 'arguments:kw_defaults')
+                    exp = list(olds)
+                    exp[i] = (el[0], el[1], el[2], None if val is None else ast.unparse(ast.parse(val, mode='eval').body))
+                    etext = _args_render(exp)
+                    want = canon(ast.parse(f'v = lambda {etext}: 0\n' if lam else f'def fn({etext}): pass\n'))
+                    try:
+                        got_src = canon(ast.parse(m.src))
+                    except SyntaxError as ex:
+                        got_src = ('SyntaxError', str(ex))
+                    if canon(m.a) != want or got_src != want:
+                        ctx.violation('arguments-sweep|kw_defaults|structure', 'after putting / deleting the default of a keyword-only argument the arguments are not the old ones with that default changed',
+                                      {**desc, 'result_src': m.src, 'live_equals_expected': canon(m.a) == want})
+            for new in ARGS_NEWS:
+                if lam and new and ':' in new:
+                    continue
+                news = _arg_elems(new, lam) if new else []
+                for s0 in range(n + 1):
+                    for e0 in range(s0, n + 1):
+                        if new is None and s0 == e0:
+                            continue
+                        exp = olds[:s0] + news + olds[e0:]
+                        etext = _args_render(exp)
+                        for ep in ('put_slice', 'view_setslice'):
+                            m = fst.FST(src, 'exec')
+                            node = m.body[0].value.args if lam else m.body[0].args
+                            desc = {'src': src, 'new': new, 'start': s0, 'stop': e0, 'entry': ep, 'expected_arguments': etext}
+                            try:
+                                if ep == 'put_slice':
+                                    node.put_slice(new, s0, e0, '_all')
+                                elif new is None:
+                                    del node._all[s0:e0]
+                                else:
+                                    node._all[s0:e0] = new
+                            except (fst.NodeError, ValueError, SyntaxError) as ex:
+                                ctx.tick((src, new, s0, e0, ep), 'arguments:refused:' + ('valid' if etext is not None else 'invalid'))
+                                if m.src != src:
+                                    ctx.violation('arguments-sweep|refusal-dirty', 'a refused put changed the source', {**desc, 'error': repr(ex)[:200], 'result_src': m.src})
+                                elif etext is not None:
+                                    ctx.violation(f'arguments-sweep|refused|{norm_msg(str(ex))[:60]}', 'a put into arguments._all whose result is valid Python was refused', {**desc, 'error': repr(ex)[:300]})
+                                continue
+                            except Exception as ex:
+                                ctx.violation(f'arguments-sweep|crash|{type(ex).__name__}', 'a put into arguments._all raised an internal error', {**desc, 'error': repr(ex)[:300]})
+                                continue
+                            ctx.tick((src, new, s0, e0, ep), 'arguments:' + ep)
+                            try:
+                                got_src = canon(ast.parse(m.src))
+                            except SyntaxError as ex:
+                                got_src = ('SyntaxError', str(ex))
+                            if etext is None:
+                                # carried out although these elements in this order are no valid arguments: at least the tree and the source must agree and hold the names in list order
+                                names = [e[1] for e in _arg_elems(ast.unparse(node.a), lam)] if got_src == canon(m.a) else None
+                                if names != [e[1] for e in exp]:
+                                    ctx.violation('arguments-sweep|structure|unorderable', 'the arguments after the put are not old[:start] + new + old[stop:]', {**desc, 'result_src': m.src})
+                                continue
+                            want = canon(ast.parse(f'v = lambda {etext}: 0\n' if lam else f'def fn({etext}): pass\n'))
+                            if canon(m.a) != want or got_src != want:
+                                ctx.violation(f'arguments-sweep|structure|{"lambda" if lam else "def"}', 'the arguments after the put are not old[:start] + new + old[stop:] (each element in its own category)',
+                                              {**desc, 'result_src': m.src, 'live_equals_expected': canon(m.a) == want})
+
+
 def run(ctx: Ctx):
     ctx.rule = ('(1) exhaustive small-domain + random 64-bit argument tuples for the translated index functions, model (vm_compute) vs '
                 'real function vs Python list; (2) random FSTView op sequences, model vs real, distinct = (field kind, op-name sequence, '
@@ -881,6 +1085,8 @@ def run(ctx: Ctx):
     run_guarded(ctx, stage_split_fields)
     run_guarded(ctx, stage_with_items_and_names)
     run_guarded(ctx, stage_needy_elements)
+    run_guarded(ctx, stage_clause_removal)
+    run_guarded(ctx, stage_arguments_sweep)
 
 
 def replay(path):
